@@ -99,7 +99,7 @@ package io
 //@   loop 1 invariant arr(dec.buf) == old(arr(dec.buf)) || isnew(arr(dec.buf))
 //@   loop 1 invariant dec.reader != nil ==> forall(j, off(data), off(data) + len(data), mem(data, j) == ghost.rstream[ival(dec.reader)][lp0 - off(data) + j])
 //@   ensures [stream_content] dec.reader != nil ==> forall(j, off(data), off(data) + len(data), mem(data, j) == ghost.rstream[ival(dec.reader)][lp0 - off(data) + j])
-//@   ensures [memory_content] dec.reader == nil ==> forall(i, 0, len(data), data[i] == old(dec.buf[dec.head + i]))
+//@   ensures [memory_content] dec.reader == nil ==> forall(j, off(data), off(data) + len(data), mem(data, j) == old(mem(dec.buf, off(dec.buf) + dec.head - off(data) + j)))
 //@   ensures [never_more_than_asked] len(data) <= n0 || (n0 < 0 && len(data) == 0)
 //@   ensures [short_only_with_error] len(data) < n0 ==> dec.Error != nil
 //@   ensures [negative_length_is_an_error] n0 < 0 ==> dec.Error != nil
